@@ -441,3 +441,74 @@ def rail_grid(r):
         bot = r.choice([" " * max(0, k + r.randint(-1, 1)) + "+" + "-" * max(0, w + r.randint(-1, 1)) + "+", top.replace("+", "-", 1), top])
     rows.append(bot)
     return "\n".join(rows)
+
+
+def framed(t, r=None):
+    """the text inside a large box, one blank cell away from it on every side"""
+    rows = t.split("\n")
+    w = max([len(x) for x in rows] + [1])
+    top = "+" + "-" * (w + 2) + "+"
+    return "\n".join([top, "|" + " " * (w + 2) + "|"] + ["| " + x.ljust(w) + " |" for x in rows] + ["|" + " " * (w + 2) + "|", top])
+
+
+def scene_with_block(r, block, wmax=34, hmax=16):
+    """a scene (gen.scene) with a multi-row block placed where it touches nothing (one blank cell all around); returns
+    (text, column, row) of the block's top-left cell, or None when there is no room"""
+    base = scene(r, [], wmax=wmax, hmax=hmax).split("\n")
+    H = max(len(base), len(block) + 2)
+    W = max([len(x) for x in base] + [max(len(b) for b in block) + 2])
+    g = [list(x.ljust(W)) for x in base] + [[" "] * W for _ in range(H - len(base))]
+    bw, bh = max(len(b) for b in block), len(block)
+    spots = []
+    for y in range(0, H - bh + 1):
+        for x in range(0, W - bw + 1):
+            if all(g[yy][xx] == " " for yy in range(max(0, y - 1), min(H, y + bh + 1)) for xx in range(max(0, x - 1), min(W, x + bw + 1))):
+                spots.append((x, y))
+    if not spots:
+        return None
+    x, y = r.choice(spots)
+    for j, row in enumerate(block):
+        for i, ch in enumerate(row):
+            if ch != " ":
+                g[y + j][x + i] = ch
+    return "\n".join("".join(row).rstrip() for row in g), x, y
+
+
+def box_with_crossings(r):
+    """a closed box of - | + with strokes that cross or leave its walls: dashes on both sides of a wall cell, bars above and below
+    an edge cell, stubs attached outside or inside (characters - | + only)"""
+    w, h, k, n = r.randint(2, 8), r.randint(1, 4), r.randint(2, 4), r.randint(1, 2)
+    W, H = k + w + 2 + 3, n + h + 2 + 2
+    g = [[" "] * W for _ in range(H)]
+    for x in range(k, k + w + 2):
+        g[n][x] = "-"
+        g[n + h + 1][x] = "-"
+    for y in range(n, n + h + 2):
+        g[y][k] = "|"
+        g[y][k + w + 1] = "|"
+    for (x, y) in ((k, n), (k + w + 1, n), (k, n + h + 1), (k + w + 1, n + h + 1)):
+        g[y][x] = "+"
+    for _ in range(r.randint(1, 4)):
+        if r.random() < 0.5:
+            y = r.randint(n + 1, n + h)
+            x = r.choice([k, k + w + 1])
+            side = r.choice(["both", "out", "in"])
+            if side in ("both", "out"):
+                g[y][x - 1 if x == k else x + 1] = "-"
+                if r.random() < 0.5:
+                    g[y][x - 2 if x == k else x + 2] = "-"
+            if side in ("both", "in"):
+                g[y][x + 1 if x == k else x - 1] = "-"
+            if r.random() < 0.3:
+                g[y][x] = "+"
+        else:
+            x = r.randint(k + 1, k + w)
+            y = r.choice([n, n + h + 1])
+            side = r.choice(["both", "out", "in"])
+            if side in ("both", "out"):
+                g[y - 1 if y == n else y + 1][x] = "|"
+            if side in ("both", "in"):
+                g[y + 1 if y == n else y - 1][x] = "|"
+            if r.random() < 0.3:
+                g[y][x] = "+"
+    return "\n".join("".join(row).rstrip() for row in g)
